@@ -16,6 +16,9 @@ implies every CNF clause (exact, by one memoised walk of the diagram under the c
 corner valuations of the clause), the rebuilt Bdd is the operand, the observed clause list denotes the operand
 (`mkDnf`/`mkCnf` of the model on the OBSERVED list is the operand — sound by `mk_dnf_spec`/`mk_cnf_spec`), and
 the library's own verdicts (the `bits` field) say the same.
+Valid non-canonical operands: to_dnf/to_cnf must succeed and the rebuild must be canonical with the same function;
+to_optimized_dnf must panic exactly when some decision node carries a variable the (satisfiable) function ignores
+(`opt_dnf_refuses_spurious_support` / `mk_dnf_to_opt_dnf_canon`), and otherwise behave as above.
 Clauses that mention a variable `≥ num_vars` are outside the property: only model agreement is checked.
 -/
 namespace B.Drive.C10
@@ -157,6 +160,16 @@ def bitsFail (bits : String) (names : List (String × Bool)) : Option String :=
   (bs.zip names).findSome? fun (b, (name, required)) =>
     if required && b != '1' then some ("lib:" ++ name ++ (if b == 'p' then ":panic" else ":false")) else none
 
+/-- does the truth table depend on variable `x`? (variable `k` is bit `n-1-k` of the index) -/
+def dependsTT (n : Nat) (tb : Array Bool) (x : Nat) : Bool :=
+  (List.range (2 ^ n)).any fun i => tb[i]! != tb[i ^^^ (1 <<< (n - 1 - x))]!
+
+/-- the operand on which `to_optimized_dnf` refuses (`opt_dnf_refuses_spurious_support`): a decision node,
+    a satisfiable function and some node — reachable or not — labelled by a variable the function ignores;
+    on every other valid operand it must succeed (`mk_dnf_to_opt_dnf_canon`) -/
+def expectOptPanic (A : Arr) (n : Nat) (tb : Array Bool) : Bool :=
+  A.size ≥ 3 && tb.any id && ((A.toList.drop 2).any fun nd => !dependsTT n tb nd.var)
+
 def sizeTag (k : Nat) : String := if k = 0 then "len0" else if k = 1 then "len1" else if k ≤ 3 then "len2-3" else "len4+"
 
 def hasDup (cs : List PVal) : Bool :=
@@ -287,6 +300,9 @@ def handle (key : String) (ins obs : List String) : Verdict :=
       let semFail : List (Option String) :=
         if n ≤ maxTT then
           let tb := ttOf A n
+          if expectOptPanic A n tb then
+            [if dnf == "panic" then none else some "to_optimized_dnf:no-panic-on-spurious-support"]
+          else
           [ (match od with
               | none => some "to_optimized_dnf:panic"
               | some cs =>
@@ -304,11 +320,13 @@ def handle (key : String) (ins obs : List String) : Verdict :=
                 firstFail [implicantFail A cs "to_optimized_dnf",
                   if showOutArr (mkDnf n cs) == b then none else some "to_optimized_dnf:function"]),
             (if rd == b then none else some "mk_dnf(to_optimized_dnf):rebuild-equals") ]
-      let fail := firstFail (semFail ++ [bitsFail bits
-        [("optimized-clauses-implicants", true), ("mk_dnf(to_optimized_dnf)==b", canonB)]])
+      let refuses := n ≤ maxTT && expectOptPanic A n (ttOf A n)
+      let fail := firstFail (semFail ++ (if refuses then [] else [bitsFail bits
+        [("optimized-clauses-implicants", true), ("mk_dnf(to_optimized_dnf)==b", canonB)]]))
       { agree := model == " ".intercalate [dnf, rd, bits], model, fail, nontrivial := A.size > 2,
         tags := [key, s!"n{if n ≤ maxTT then toString n else if n < 54 then "14-53" else if n ≤ 130 then "54-130" else "131+"}"] ++
-          (if n > maxTT then ["wide"] else []) ++ [sizeTag (od.getD []).length] }
+          (if n > maxTT then ["wide"] else []) ++ (if canonB then [] else ["noncanonical"]) ++
+          (if refuses then ["opt-refuses"] else []) ++ [sizeTag (od.getD []).length] }
     | none => Verdict.bad "args"
   | _, _, _ => Verdict.bad ("key " ++ key)
 
